@@ -36,4 +36,5 @@ def run_script(desc, mode="proof", sizes=None, pinned=None, native=None, repo=No
     S.wall = time.time() - t0
     S.error = err
     S.dropped = dict(I.dropped)
+    S.executed = dict(I.executed)
     return S
